@@ -63,7 +63,7 @@ def gen_xslt():
         bool(re.search(r"i\s*=\s*nElems\s*-\s*1", b))
     facts["find_entry_global_needs_not_param"] = bool(re.search(
         r"fIsParam\s*==\s*false\s*&&\s*true\s*==\s*fSearchGlobalSpace\s*&&\s*m_globalStackFrameIndex\s*>\s*1", b))
-    facts["find_entry_activates_param"] = bool(re.search(r"eParam\s*\)\s*\{\s*if\s*\(\s*fIsParam\s*==\s*true\s*\)\s*\{\s*if\s*\([^)]*equals\(qname\)\s*\)\s*\{\s*theEntry\.activate\(\)", b))
+    facts["find_entry_activates_param"] = bool(re.search(r"eParam\s*\)\s*\{\s*if\s*\(\s*fIsParam\s*==\s*true\s*\)\s*\{\s*if\s*\(\s*theEntry\.getName\(\)\s*->\s*equals\(qname\)\s*\)\s*\{\s*theEntry\.activate\(\)", b))
     b = body_of(vs, r"VariablesStack::push\s*\(\s*const\s+StackEntry\s*&\s*theEntry\s*\)\s*\{", "VariablesStack::push")
     facts["push_tracks_frame_index"] = bool(re.search(r"if\s*\(\s*m_currentStackFrameIndex\s*==\s*m_stack\.size\(\)\s*\)\s*\{\s*\+\+m_currentStackFrameIndex", b))
     b = body_of(vs, r"VariablesStack::popElementFrame\s*\(\s*\)\s*\{", "VariablesStack::popElementFrame")
